@@ -861,6 +861,16 @@ func TestReplay(t *testing.T) {
 		t.Fatal(err)
 	}
 	rec := h.Begin("C07", "replay")
+	if h.ReplayPart(p) == "settle2" {
+		var sc S2Case
+		if err := h.LoadReplay(p, &sc); err != nil {
+			t.Fatal(err)
+		}
+		o := runS2Case(sc)
+		fmt.Println("classes:", o.Classes)
+		rec.Report(t, sc, o)
+		return
+	}
 	if h.ReplayPart(p) == "hub" {
 		var hc HubCase
 		if err := h.LoadReplay(p, &hc); err != nil {
